@@ -176,6 +176,8 @@ func (g *gen) call(in *mInst, name string, args ...uint64) ([]uint64, string) {
 		rel := "none"
 		if t := eff.inst.tabs[eff.sem.A]; args[0] < uint64(len(t.slots)) && t.slots[args[0]].fn != nil {
 			switch callee := g.resolve(t.slots[args[0]].fn); {
+			case callee.inst != nil && !callee.inst.live:
+				rel = "function-of-failed-instance"
 			case callee.host != "":
 				rel = "host"
 			case callee.inst == eff.inst:
@@ -1250,6 +1252,7 @@ func (g *gen) genModule(name string) *ModSpec {
 	if r.Chance(1, 4) {
 		spec.Start = g.genStart(spec, memSize, tabTypes, tabSize, nRef, impGlobs)
 	}
+	spec.HideImportedTables = r.Chance(1, 4)
 	// the import section lists the kinds in PRNG order (function indexes are not import-section positions)
 	if r.Chance(2, 3) {
 		spec.Imports = interleaveImports(r, spec.Imports, r.Bool())
